@@ -140,6 +140,12 @@ func fieldChain(v ssa.Value) (root ssa.Value, chain []*types.Var) {
 			v = b
 		case *ssa.UnOp:
 			if x.Op == token.MUL {
+				if a, ok := x.X.(*ssa.Alloc); ok {
+					if sv := cellValue(a, x); sv != nil {
+						v = sv
+						continue
+					}
+				}
 				v = x.X
 				continue
 			}
@@ -148,6 +154,88 @@ func fieldChain(v ssa.Value) (root ssa.Value, chain []*types.Var) {
 			return v, chain
 		}
 	}
+}
+
+// cellValue: a local variable that a closure captures (or whose address is taken) lives in an Alloc cell and every
+// use is a load from it. When the cell is assigned exactly once — in its own function, never by a closure, never
+// through an escaped address — and that store dominates the use, the load IS the stored value; returns it, else nil.
+// This makes `s.f` mean the same access path whether or not some closure happens to capture s.
+func cellValue(a *ssa.Alloc, use ssa.Instruction) ssa.Value {
+	if a.Referrers() == nil {
+		return nil
+	}
+	var st *ssa.Store
+	for _, r := range *a.Referrers() {
+		switch y := r.(type) {
+		case *ssa.Store:
+			if y.Addr != ssa.Value(a) {
+				return nil // the address itself is stored somewhere
+			}
+			if st != nil {
+				return nil
+			}
+			st = y
+		case *ssa.UnOp:
+			if y.Op != token.MUL {
+				return nil
+			}
+		case *ssa.MakeClosure:
+			// the closure must only read the cell
+			fn, _ := y.Fn.(*ssa.Function)
+			if fn == nil {
+				return nil
+			}
+			for i, b := range y.Bindings {
+				if b != ssa.Value(a) || i >= len(fn.FreeVars) {
+					continue
+				}
+				if !freeVarReadOnly(fn.FreeVars[i], 0) {
+					return nil
+				}
+			}
+		case *ssa.DebugRef:
+		default:
+			return nil
+		}
+	}
+	if st == nil || st.Parent() != a.Parent() {
+		return nil
+	}
+	if use != nil && (use.Parent() != st.Parent() || !instrDominates(st, use)) {
+		return nil
+	}
+	return st.Val
+}
+
+func freeVarReadOnly(fv *ssa.FreeVar, depth int) bool {
+	if fv.Referrers() == nil {
+		return true
+	}
+	if depth > 4 {
+		return false
+	}
+	for _, r := range *fv.Referrers() {
+		switch y := r.(type) {
+		case *ssa.UnOp:
+			if y.Op != token.MUL {
+				return false
+			}
+		case *ssa.MakeClosure:
+			fn, _ := y.Fn.(*ssa.Function)
+			if fn == nil {
+				return false
+			}
+			for i, b := range y.Bindings {
+				if b == ssa.Value(fv) && i < len(fn.FreeVars) && !freeVarReadOnly(fn.FreeVars[i], depth+1) {
+					return false
+				}
+			}
+		case *ssa.DebugRef:
+		default:
+			return false
+		}
+	}
+	return true
 }
 
 // callCommon extracts the CallCommon of call-like instructions.
